@@ -225,7 +225,16 @@ impl<I: Interner> Forest<I> {
         );
         let table = Self::build_table(context, self.tables.next_index(), goal);
         #[cfg(chalk_verif)]
-        crate::verif::ev_table_new(self.tables.next_index(), &table);
+        crate::verif::ev_table_new(
+            self.tables.next_index(),
+            &table,
+            truncate::needs_truncation(
+                context.program().interner(),
+                &mut InferenceTable::new(),
+                context.max_size(),
+                &table.table_goal.canonical.value,
+            ),
+        );
         self.tables.insert(table)
     }
 
@@ -1791,6 +1800,12 @@ impl<'forest, I: Interner> SolveState<'forest, I> {
             self.forest.tables[table]
                 .table_goal
                 .is_trivial_substitution(self.context.program().interner(), &answer.subst),
+            truncate::needs_truncation(
+                self.context.program().interner(),
+                &mut InferenceTable::new(),
+                self.context.max_size(),
+                &answer.subst.value.subst,
+            ),
         );
         if let Some(answer_index) = self.forest.tables[table].push_answer(answer) {
             // See above, if we have a *complete* and trivial answer, we don't
@@ -1802,6 +1817,7 @@ impl<'forest, I: Interner> SolveState<'forest, I> {
             #[cfg(chalk_verif)]
             chalk_ir::verif::emit("AnswerNew", |f| {
                 f.int("idx", crate::verif::answer_index_value(answer_index))
+                    .bool("big", verif_answer.3)
                     .bool("amb", ambiguous)
                     .bool("trivial", is_trivial_answer)
                     .bool("trivsub", verif_answer.2)
